@@ -71,5 +71,18 @@ PROPS["C03"] = {
     "technique": "runtime monitoring: fault enumeration in isolated worker processes with panic/abort/CPU/allocation monitors",
 }
 
+PROPS["C10"] = {
+    "level": "exploration",
+    "engines": [
+        {"bin": "hv", "args": ["c10"]},
+    ],
+    "min": {"quick": {"grid_frames": 4224, "header_cases": 131072, "decodes": 200_000},
+            "thorough": {"grid_frames": 4224, "random_frames": 5000}},
+    "assumptions": [],
+    "level_text": "The crate's real frame serialiser and decoder (through the cfg-guarded wrapper) are executed on the complete grid of header-field combinations and length classes and on all 65536 two-byte headers; serialised bytes are compared with an independent RFC 6455 encoder and decoding is repeated under every split point of short frames and random splits of long ones.",
+    "level_note": "Trusted: the reference codec in hvcommon::wsref; the hook is a thin data wrapper calling Frame::from_stream / From<Frame> for Vec<u8>.",
+    "technique": "runtime monitoring: differential oracle (reference RFC 6455 codec) over a complete field grid x read-segmentation plans",
+}
+
 # properties without a check, with the reason (kept current)
 NOT_CLAIMED = {}
